@@ -48,8 +48,11 @@ class G:
         if x < 0.7 or not self.allow_float:
             return self.pyint()
         if x < 0.85:
-            return repr(r.choice([0.5, 1.5, -2.25, 10.0, 1e-3])) if self.allow_neg else repr(r.choice([0.5, 1.5, 10.0]))
-        return "D(%r)" % r.choice(["1.10", "0.001", "-3.5", "100"] if self.allow_neg else ["1.10", "0.001", "100"])
+            # boundary texts: negative zero (text starts with '-' although the value is not < 0), exponent forms
+            return repr(r.choice([0.5, 1.5, -2.25, 10.0, 1e-3, -0.0, 0.0, 1e-07, -1e-05, 1e+22])) if self.allow_neg else \
+                repr(r.choice([0.5, 1.5, 10.0, 0.0, 1e-07]))
+        return "D(%r)" % r.choice(["1.10", "0.001", "-3.5", "100", "-0.0", "0.00", "-0.001"] if self.allow_neg
+                                  else ["1.10", "0.001", "100", "0.00"])
 
     def string(self):
         r = self.r
